@@ -10,6 +10,7 @@ import (
 	"os"
 	"path/filepath"
 	"slices"
+	"sync/atomic"
 	"time"
 
 	"github.com/superfly/ltx"
@@ -21,6 +22,9 @@ import (
 func init() {
 	litestream.RegisterReplicaClientFactory("file", NewReplicaClientFromURL)
 }
+
+// tmpSeq makes temporary file names unique within the process.
+var tmpSeq atomic.Uint64
 
 // ReplicaClientType is the client type for this package.
 const ReplicaClientType = "file"
@@ -181,7 +185,9 @@ func (c *ReplicaClient) WriteLTXFile(ctx context.Context, level int, minTXID, ma
 	}
 
 	// Write LTX file to temporary file next to destination path.
-	tmpFilename := filename + ".tmp"
+	// Use a unique temporary name so that concurrent writers of the same file
+	// (e.g. two snapshots of one position) cannot interleave their output.
+	tmpFilename := fmt.Sprintf("%s.%d-%d.tmp", filename, os.Getpid(), tmpSeq.Add(1))
 	f, err := internal.CreateFile(tmpFilename, fileInfo)
 	if err != nil {
 		return nil, err
